@@ -24,10 +24,13 @@ from symx.harness import Ob, FuncTrace, source_digest, solve_ladder, eval_terms
 from . import gr
 
 PID = 'C17'
-MODS = ['Conformally_flat', 'Non_diagonal', 'Harvey_Tsoubelis', 'Collins_Stewart', 'Schwarzschild_isotropic', 'EdS', 'LCDM', 'Rosquist_Jantzen']
+MODS = ['Conformally_flat', 'Non_diagonal', 'Harvey_Tsoubelis', 'Collins_Stewart', 'Schwarzschild_isotropic', 'EdS', 'LCDM', 'Rosquist_Jantzen', 'Szekeres']
 FILES = [f'src/aurel/solutions/{m}.py' for m in MODS]
+# Szekeres: K_xx, K_yy, the numeric/symbolic metric and the vanishing components are decided; the remaining identities (they
+# need sinh^(1/3), cosh, the hypergeometric contract and the LCDM roots together) are not settled by z3 in reach -> hunt only
+HUNT_ONLY = {'Szekeres': ('Kdown3[2,2]', 'Einstein[0,0]', 'Einstein[0,1]', 'Einstein[0,2]', 'Einstein[0,3]', 'Einstein[1,1]', 'Einstein[1,2]',
+                          'Einstein[2,2]', 'Einstein[3,3]')}
 OUT_OF_REACH = {
-    'Szekeres': 'uses scipy hyp2f1',
     'ICPertFLRW': 'first-order perturbation, not an exact solution; built on a caller-supplied fd',
 }
 
@@ -373,7 +376,7 @@ def sympy_to_term(e, amap):
 
 def sampler_for(modname):
     def f(rng):
-        env = {n: F(rng.choice([3, 5, 7, 9, 11]), 4) for n in ('t', 'kappa', 'fq', 'M', 't_today', 'k', 'm')}
+        env = {n: F(rng.choice([3, 5, 7, 9, 11]), 4) for n in ('t', 'kappa', 'fq', 'M', 't_today', 'k', 'm', 'Amp', 'kwave')}
         env.update(s=F(rng.choice([1, 2, 3]), 5), q=F(rng.choice([-1, 1, 2]), 7), Om=F(rng.choice([1, 2, 3]), 4))
         env.update({n: F(rng.choice([-7, -3, 2, 5, 9]), 4) for n in ('x', 'y', 'z')})
         if modname == 'Schwarzschild_isotropic':
@@ -397,7 +400,8 @@ def run_module(args):
     r_ = solver.check(pre, timeout_s=60, want_model=False)
     vac.append(dict(name=f'{modname}: preconditions satisfiable', expect='sat', got=r_['verdict']))
     for o in obs:
-        if o.name.endswith('Einstein[1,1]') or o.name.endswith('Kdown3[1,1]'):
+        if (o.name.endswith('Einstein[1,1]') or o.name.endswith('Kdown3[1,1]')) and not any(
+                o.name.endswith(sfx) for sfx in HUNT_ONLY.get(modname, ())):
             r_ = solver.check(list(pre) + [tm.ne(o.impl, tm.add(o.oracle, tm.ONE))], timeout_s=60, want_model=False)
             vac.append(dict(name=f'{o.name} against reference + 1', expect='sat', got=r_['verdict']))
     rungs = [dict(name='full', envs=[None], timeout=90 if tier == 'quick' else 600),
@@ -406,9 +410,26 @@ def run_module(args):
                   timeout=120 if tier == 'quick' else 600)]
     # prescreen needs exact evaluation: modules with irrational atoms evaluate in floats (tolerance 1e-7)
     calib = {o.name: 2 for o in obs if 'Kretschmann' in o.name}       # measured: only the rational-point slice settles it
+    hunt = []
+    if modname in HUNT_ONLY:
+        # obligations no rung settles on the unchanged tree (measured): bug hunting only - random admissible points,
+        # each candidate confirmed by a pinned solver query; a confirmed counterexample is a violation, otherwise the
+        # obligation is listed as not claimed (never as discharged)
+        hunt = [o for o in obs if any(o.name.endswith(sfx) for sfx in HUNT_ONLY[modname])]
+        obs = [o for o in obs if o not in hunt]
+        solve_ladder(hunt, [dict(name='full', envs=[None], timeout=15)], sampler=sampler_for(modname), rng=random.Random(seed + 1), workers=4)
+        # a random-point candidate whose pinned query the solver does not settle either is handed to the float replay of the real
+        # module (the replay is the arbiter of every report); labelled as such
+        from symx.harness import prescreen
+        cands, _ = prescreen([o for o in hunt if o.result['verdict'] == 'unknown'], sampler_for(modname), random.Random(seed + 1), n_models=3)
+        still = [o for o in hunt if o.result['verdict'] == 'unknown']
+        for i_, m_ in cands.items():
+            still[i_].result = dict(verdict='sat', rung='numeric candidate (pinned query not settled); float replay decides', seconds=0.0,
+                                    sha='numeric', model=dict(m_), backend='none', trivial=False)
     solve_ladder(obs, rungs, sampler=sampler_for(modname), rng=random.Random(seed), workers=4, calib=calib)
     out = []
-    for o in obs:
+    unsettled = [o.name for o in hunt if o.result['verdict'] == 'unknown']
+    for o in obs + [o for o in hunt if o.result['verdict'] != 'unknown']:
         r = o.result
         rec = dict(name=o.name, verdict=r['verdict'], seconds=round(r['seconds'], 3), backend=r.get('backend', 'z3old'), sha=r['sha'],
                    group=o.group, trivial=r.get('trivial', False), kind='identity', detail=r['rung'])
@@ -420,7 +441,8 @@ def run_module(args):
                 rec['values'] = None
             rec['model'] = {k: str(v) for k, v in r['model'].items() if v is not None}
         out.append(rec)
-    return dict(module=modname, obs=out, build_s=round(t_build, 1), untranslated=untranslated, stats=solver.STATS.as_dict(), error=None, vacuity=vac)
+    return dict(module=modname, obs=out, build_s=round(t_build, 1), untranslated=untranslated, stats=solver.STATS.as_dict(), error=None, vacuity=vac,
+                hunt_only_unsettled=unsettled)
 
 
 def float_replay(modname, name, model):
@@ -439,14 +461,17 @@ def float_replay(modname, name, model):
     with np.errstate(all='ignore'):
         gam = mod.gammadown3(t, X, Y, Z)
         if 'Kdown3' in name:
-            dt_ = 1e-5
-            dgam = (mod.gammadown3(t + dt_, X, Y, Z) - mod.gammadown3(t - dt_, X, Y, Z)) / (2 * dt_)
+            dt_ = 1e-4 * abs(t)
+            # 4th-order central difference in time
+            dgam = (-mod.gammadown3(t + 2 * dt_, X, Y, Z) + 8 * mod.gammadown3(t + dt_, X, Y, Z)
+                    - 8 * mod.gammadown3(t - dt_, X, Y, Z) + mod.gammadown3(t - 2 * dt_, X, Y, Z)) / (12 * dt_)
             al = mod.alpha(t, X, Y, Z) if hasattr(mod, 'alpha') else np.ones(X.shape)
             want = -dgam / (2 * al)
             got = mod.Kdown3(t, X, Y, Z)
             c = N // 2
             d = float(np.max(np.abs((got - want)[:, :, c, c, c])))
-            return dict(max_abs_difference=d, reproduces=d > 1e-6)
+            sc = float(np.max(np.abs(want[:, :, c, c, c]))) + 1e-300
+            return dict(max_abs_difference=d, scale=sc, relative=d / sc, reproduces=d / sc > 1e-7)
         if 'Einstein' in name and hasattr(mod, 'gdown4') and 'analytical' in mod.gdown4.__code__.co_varnames and hasattr(mod, 'Tdown4'):
             return sympy_einstein_replay(mod, name, pt)
         if 'Einstein' in name:
@@ -531,6 +556,8 @@ def main(report, tier, seed, workers, calibrate=False):
             report.harness_errors.append(f"{res['module']}: {res['error'][-300:]}")
             continue
         report.extra.setdefault('build_seconds', {})[res['module']] = res['build_s']
+        if res.get('hunt_only_unsettled'):
+            report.extra.setdefault('hunt_only_unsettled', []).extend(res['hunt_only_unsettled'])
         for v_ in res.get('vacuity', []):
             report.vacuity.append(v_)
             if v_['got'] == 'unsat':
